@@ -55,3 +55,13 @@ func (w *WalletManager) SimSyncedTip() (uint64, wire.Hash, error) {
 	})
 	return height, hash, err
 }
+
+// SimNotificationQueues exposes the two buffered channels the node's
+// notifications wait in, so that a simulator can keep their contents (and
+// lengths) true while it decides which ready case the handler's select takes.
+func (w *WalletManager) SimNotificationQueues() (chan *wire.MsgBlock, chan *wire.MsgTx) {
+	if w.ntfnsHandler == nil {
+		return nil, nil
+	}
+	return w.ntfnsHandler.queueBlock, w.ntfnsHandler.queueMsgTx
+}
